@@ -118,6 +118,9 @@ type Options struct {
 	// run is declared deadlocked.
 	MaxIdleSimTime time.Duration
 	Trace          bool
+	// TapeSink, if set, sees every scheduling decision as it is taken (used to recover
+	// the schedule of a run that ends by killing the process).
+	TapeSink func(uint32)
 	// AfterStep is evaluated at every quiescent point (invariants). A non-empty string
 	// stops the run with that violation.
 	AfterStep func(s *Sim) string
@@ -569,13 +572,13 @@ func (s *Sim) Run(caller func()) (res Result) {
 		if !s.opt.Replay && s.opt.Faults.ClockJumpRate > 0 && s.rng.Chance(s.opt.Faults.ClockJumpRate) {
 			// clock-jump fault: simulated time passes while actors are still parked
 			d := time.Duration(1+s.rng.Intn(5000)) * time.Millisecond
-			s.tape = append(s.tape, clockJumpMark|uint32(d/time.Millisecond))
+			s.pushTape(clockJumpMark|uint32(d/time.Millisecond))
 			s.doClockJump(d)
 			continue
 		}
 		if s.opt.Replay && s.tapePos() < len(s.opt.Tape) && s.opt.Tape[s.tapePos()]&clockJumpMark != 0 {
 			d := time.Duration(s.opt.Tape[s.tapePos()]&^clockJumpMark) * time.Millisecond
-			s.tape = append(s.tape, s.opt.Tape[s.tapePos()])
+			s.pushTape(s.opt.Tape[s.tapePos()])
 			s.doClockJump(d)
 			continue
 		}
@@ -588,7 +591,7 @@ func (s *Sim) Run(caller func()) (res Result) {
 			idx = s.choose(en)
 		}
 		a := en[idx]
-		s.tape = append(s.tape, uint32(idx))
+		s.pushTape(uint32(idx))
 		ev := Event{Step: s.step, Actor: a.name, What: "run " + a.site + " en=" + strconv.Itoa(len(en))}
 		s.logStep(ev)
 		s.lastActor = a
@@ -597,6 +600,13 @@ func (s *Sim) Run(caller func()) (res Result) {
 		a.parked = false
 		s.mu.Unlock()
 		a.wake <- struct{}{}
+	}
+}
+
+func (s *Sim) pushTape(x uint32) {
+	s.tape = append(s.tape, x)
+	if s.opt.TapeSink != nil {
+		s.opt.TapeSink(x)
 	}
 }
 
